@@ -180,11 +180,19 @@ pub fn run(args: &Args) {
     for (f, n) in FUNCS.iter() {
         for pos in 0..*n {
             for a in ARGS.iter() {
-                for default in ["1", "S$"] {
-                    if *n == 1 && default == "S$" {
-                        continue;
+                // the other positions take every combination of a small number, another small number and
+                // a string, so that for every function some combination is well typed
+                let defaults = ["1", "2", "S$"];
+                let others = *n - 1;
+                for combo in 0..3usize.pow(others as u32) {
+                    let mut c = combo;
+                    let mut picks: Vec<&str> = vec![];
+                    for _ in 0..others {
+                        picks.push(defaults[c % 3]);
+                        c /= 3;
                     }
-                    let args: Vec<&str> = (0..*n).map(|k| if k == pos { *a } else { default }).collect();
+                    let mut it = picks.into_iter();
+                    let args: Vec<&str> = (0..*n).map(|k| if k == pos { *a } else { it.next().unwrap() }).collect();
                     let src = format!("{}PRINT {}({})\n{}", preamble, f, args.join(", "), tail);
                     evaluations += 1;
                     match run_program(&src, &RunOpts { stdin: vec![], budget: 20_000, trace: false }) {
